@@ -444,7 +444,7 @@ func init() {
 			{Name: "faults-hier", Weight: 1, Fn: c07Profile("hier", true, false)},
 		},
 		Components: map[string][]string{
-			"real": {"pkg/blobstore/local: periodic syncer (both routines), persistent block list (wake-up channels, epochs, deferred releases), directory-backed state store, allocator, the store above them"},
+			"real": {"pkg/blobstore/configuration new_blob_access.go (W-config runs: the store is assembled by the unmodified NewBlobAccessFromConfiguration; top-level decorators, metrics wrappers, allocator collectors)", "pkg/blobstore/local: periodic syncer (both routines), persistent block list (wake-up channels, epochs, deferred releases), directory-backed state store, allocator, the store above them"},
 			"stub": {"block devices with failing Sync (simdisk)", "state directory with failing operations (simdir)", "clock (simulated, discrete-event)", "program.Group", "scheduling (verifsimrt)"},
 		},
 		Rule:           "a run = persistent store x 1-3 clients (uploads, reads, sleeps) x both syncer routines under a drawn schedule, optionally with transient sync/state-write failures and a shutdown; then a drain phase (faults stop, fair scheduling, clock jumps) that must reach quiescence; oracles: no panic, state writers never overlap, sync rounds >= one minimum epoch interval apart, the covering sync starts within one interval of each upload and a state write follows at once, a block release is followed by a state write with no timer wait, a rotation probe of block_count+1 full-block uploads is never refused, and a power loss at quiescence loses no acknowledged upload; non-trivial = uploads acknowledged and (a retry, a block release or an interleaving) happened",
